@@ -149,7 +149,7 @@ CHECKS = {
              technique="Coq proof (induction over exchange rounds; handshake case analysis) + executed correspondence over bootstrap graphs", ref="5 (C14)"),
  "C15": dict(text="Theorems C15_* (Properties/C15.v): for EVERY u16 peer-timeout/keepalive and every non-empty multiset of advertised timeouts the "
                   "scheduled announcement delay is at most 1 s or strictly below every advertised timeout (after the fix of F7); a peer whose timeout "
-                  "passed is removed at the next housekeeping tick with all claims and learned entries and re-dialled; the reconnect back-off stays "
+                  "passed is removed at the next housekeeping tick with all claims and learned entries, and the same tick sends a fresh stage-1 handshake message to its address unless that is an own address or a handshake with it is pending (RedialProofs.v); the reconnect back-off stays "
                   "within 1..3600 s for any number of failures; in EVERY reachable state a due announcement is emitted to every current peer exactly once, "
                   "also when a later housekeeping step fails on every tick (AnnounceProofs.v). PARTIAL: 'no healthy peer is ever timed out in a stable mesh' is decided by the "
                   "correspondence on heterogeneous meshes over the timeout grid, silence and 48 h back-off scenarios.",
